@@ -134,6 +134,11 @@ class CT:
         return None
 
     @property
+    def _version(self):
+        # torch's in-place modification counter: the write counters of this tensor and of its parts stand for it
+        return self.writes + sum(getattr(p, "writes", 0) for p in (self.re, self.im) if isinstance(p, SymArr))
+
+    @property
     def shape(self):
         a = self._arr()
         return a.shape if a is not None else ()
